@@ -7,6 +7,7 @@ import (
 	"encoding/json"
 	"fmt"
 	"os"
+	"strings"
 	"runtime"
 	"testing"
 	"time"
@@ -160,6 +161,25 @@ func genC34(seed uint64, tier string) any {
 		m.Ops = append(m.Ops, c34Op{Op: "close"})
 		sc.Tasks = append(tasks, m)
 	}
+	if sc.Engine != "B" && r.Chance(1, 12) {
+		// "half-close into a full window": the peer's reader pauses after its first bytes, a second small Write fills what
+		// is left of a 64-byte send window, and CloseWrite's alert then cannot be written within its 5 s guard. Much
+		// later (the peer reads again) the application re-arms the write deadline and writes: the write side is shut.
+		x := r.Intn(2)
+		sc.Net.Window, sc.Net.SegMode, sc.Net.MaxSeg = 64, 0, 0
+		sc.PauseMs, sc.LingerMs = [2]int{}, [2]int{}
+		sc.PauseMs[1-x] = 8000
+		var tasks []c34Task
+		for _, t := range sc.Tasks {
+			if t.Side != x && t.Kind == "writer" && r.Bool() {
+				tasks = append(tasks, t)
+			}
+		}
+		w := c34Task{Side: x, Kind: "writer", Ops: []c34Op{{Op: "write", N: 5}, {Op: "sleep", DelayMs: 100}, {Op: "write", N: []int{12, 16, 20, 24}[r.Intn(4)]},
+			{Op: "closewrite"}, {Op: "sleep", DelayMs: 9000}, {Op: "setwdl", DelayMs: 3000}, {Op: "write", N: 5}}}
+		sc.Tasks = append(tasks, w)
+		sc.Reframe, sc.KeyUpdates = 0, 0
+	}
 	total := 0
 	for _, t := range sc.Tasks {
 		for _, op := range t.Ops {
@@ -311,6 +331,7 @@ type c34Side struct {
 	closeRet  time.Time   // when the first Close call of this side returned
 	closeDur  time.Duration // how long the slowest Close call of this side took (minus 5 s per overlapping CloseWrite)
 	cwActive, cwDone int    // CloseWrite calls of this side in progress / completed
+	cwShutStep       int    // scheduler step at which the first CloseWrite that shut the write side returned
 	blockedAfterClose time.Duration // longest time a Read stayed blocked after a Close call on this side had returned
 	paused    bool
 	wdlMin    time.Time   // earliest write deadline the application has ever set on this side (a Read may have to write)
@@ -531,6 +552,7 @@ func execC34(t *testing.T, scAny any, keepLog bool) *Outcome {
 		wid := 0
 		torn := ""
 		ackAfterTimeout := ""
+		writeAfterShut := ""
 		for ti, tk := range sc.Tasks {
 			tk := tk
 			sd := sides[tk.Side]
@@ -556,6 +578,9 @@ func execC34(t *testing.T, scAny any, keepLog bool) *Outcome {
 						}
 						if err == nil && n != len(p) {
 							torn = fmt.Sprintf("side %d: Write of %d bytes returned (%d, nil)", tk.Side, len(p), n)
+						}
+						if err == nil && sd.cwShutStep > 0 && step0 > sd.cwShutStep && writeAfterShut == "" {
+							writeAfterShut = fmt.Sprintf("side %d: Write of %d bytes, started after CloseWrite had returned, reported success", tk.Side, len(p))
 						}
 						if err == nil && sd.timedOut != "" && step0 > sd.timedOutStep {
 							// documented: "After a Write has timed out, the TLS state is corrupt and all future writes will return the same error."
@@ -646,6 +671,10 @@ func execC34(t *testing.T, scAny any, keepLog bool) *Outcome {
 						err := sd.conn.CloseWrite()
 						sd.cwActive--
 						sd.cwDone++
+						if sd.cwShutStep == 0 && (err == nil || !strings.Contains(err.Error(), "before handshake complete")) {
+							// the write side is shut from here on, whether or not the alert could be delivered
+							sd.cwShutStep = s.Steps
+						}
 						closeErr(sd, err)
 					case "close":
 						if sd.closedAt < 0 {
@@ -671,6 +700,9 @@ func execC34(t *testing.T, scAny any, keepLog bool) *Outcome {
 		if vsync.LockOps == 0 {
 			fmt.Println("HARNESS-ERROR C34 engine A needs the sync shim overlay (bin/check builds it); package tls is using the real sync package")
 			os.Exit(2)
+		}
+		if o.Fail == nil && writeAfterShut != "" {
+			o.Fail = Failf("c34.write_after_closewrite", "a Write was acknowledged after CloseWrite had shut the write side (its bytes cannot be part of the stream the peer was given)", "%s", writeAfterShut)
 		}
 		if o.Fail == nil && ackAfterTimeout != "" {
 			o.Fail = Failf("c34.ack_after_timeout", "a Write succeeded after an earlier Write on the connection had timed out", "%s", ackAfterTimeout)
